@@ -24,7 +24,7 @@ HARNESS_SRC = os.path.join(common.VERIF, "harness", "slotg_harness.cc")
 CORPUS = os.path.join(common.VERIF, "corpus", "SlotG")
 SAN_ENV = {"ASAN_OPTIONS": "detect_leaks=1:abort_on_error=0:halt_on_error=1:exitcode=23:symbolize=0",
            "UBSAN_OPTIONS": "halt_on_error=1:print_stacktrace=0", "LSAN_OPTIONS": "exitcode=23"}
-FOCI = ("C06", "C12", "C04", "C15")
+FOCI = ("C06", "C12", "C04", "C15", "C07")
 RULE = ("a program is non-trivial when at least three operations are performed (not refused) and it contains a "
         "copy/move/assignment of a slot variable or a destruction (delS/delT/notifyT/clrS) or a connection use")
 
@@ -99,8 +99,10 @@ class Gen:
         return 1 + self.r.below(NC)
 
     def spec(self, dst=None, kinds=None):
-        k = self.r.weighted(kinds or [("fn", 5), ("mem", 3), ("sref", 4), ("own", 2), ("ownT", 2)])
+        k = self.r.weighted(kinds or [("fn", 5), ("mem", 3), ("sref", 4), ("own", 2), ("ownT", 2), ("nest", 3)])
         f = self.fid()
+        if k == "nest":
+            return "nest:%d:S%d" % (f, self.s_any())
         if k == "fn":
             return "fn:%d" % f
         if k == "mem":
@@ -355,6 +357,62 @@ class Gen:
         self.emit("blockedS? S%d" % d)
         self.emit("callS S%d %d" % (self.r.choice([a, d]), self.arg()))
 
+    def ufid(self):
+        """a functor id used for one spec only (the monitor can then tell where its single copy lives)"""
+        self.nufid = getattr(self, "nufid", 0) + 1
+        return 20 + self.nufid
+
+    def t_nested(self):
+        """slots stored by value in other slots' functors (2 and 3 levels, mixed with by-reference outer slots);
+        the innermost is invalidated through its trackable / disconnected; who still holds a functor afterwards?"""
+        self.tags.add("nested")
+        t = self.t_get()
+        inner = self.s_new()
+        fi = self.ufid()
+        self.emit("mkS S%d %s" % (inner, self.r.choice(["mem:%d:T%d" % (fi, t), "mem:%d:T%d" % (fi, t),
+                                                        "own:%d:S%d:T%d" % (fi, self.s_any(), t)])))
+        self.S.add(inner)
+        if self.r.chance(0.2):
+            self.emit("blockS S%d 1" % inner)
+        chain = [(inner, fi)]
+        levels = self.r.weighted([(1, 3), (2, 5), (3, 2)])
+        for lv in range(levels):
+            below = chain[-1][0]
+            v = self.s_new()
+            if v in self.S:
+                break
+            f = self.ufid()
+            kind = "nest" if (lv == 0 or self.r.chance(0.5)) else "sref"
+            self.emit("mkS S%d %s:%d:S%d" % (v, kind, f, below))
+            self.S.add(v)
+            chain.append((v, f))
+        if self.r.chance(0.3):
+            j = self.s_new()
+            if j not in self.S:
+                self.emit("cpS S%d S%d" % (j, self.r.choice(chain)[0]))
+                self.S.add(j)
+        if self.r.chance(0.5):
+            self.emit("callS S%d %d" % (chain[-1][0], self.arg()))
+        for v, f in chain:
+            if self.r.chance(0.5):
+                self.emit("live? %d" % f)
+        how = self.r.weighted([("delT", 5), ("notifyT", 2), ("discS", 2), ("delS", 1), ("clrS", 1)])
+        if how in ("delT", "notifyT"):
+            self.emit("%s T%d" % (how, t))
+            if how == "delT":
+                self.T.discard(t)
+        else:
+            v = self.r.choice(chain)[0]
+            self.emit("%s S%d" % (how, v))
+            if how == "delS":
+                self.S.discard(v)
+        for v, f in self.r.shuffle(chain):
+            self.emit("emptyS? S%d" % v)
+        for v, f in chain:
+            self.emit("live? %d" % f)
+        if self.r.chance(0.4):
+            self.emit("callS S%d %d" % (chain[-1][0], self.arg()))
+
     def t_own_chain(self):
         self.tags.add("own-chain")
         a = self.mk()
@@ -477,6 +535,8 @@ class Gen:
             w.update(conn=14, delS=5, discS=4, masg=6, mv=5, delT=3)
         elif f == "C15":
             w.update(cp=7, mv=8, asg=7, masg=8, set=5, clr=3, call=7, query=8)
+        elif f == "C07":
+            w.update(delT=6, notifyT=3, live=8, query=8, delS=4, discS=3, clr=3, set=5, cp=5, call=4)
         else:
             w.update(delS=6, delT=4, notifyT=2, clr=3, set=5, conn=7)
         if self.r.chance(0.01):
@@ -534,17 +594,18 @@ class Gen:
 
     def program(self):
         f = self.focus
-        tw = {"C06": [("conn", 5), ("selfown", 6), ("chain", 4), ("parented", 2), ("outer", 3), ("xp", 1), ("eao", 3), ("stale", 1), ("none", 3)],
-              "C12": [("parented", 9), ("conn", 2), ("selfown", 1), ("chain", 1), ("outer", 2), ("xp", 1), ("eao", 1), ("stale", 3), ("none", 3)],
-              "C04": [("conn", 10), ("selfown", 2), ("chain", 2), ("parented", 2), ("outer", 2), ("xp", 1), ("eao", 2), ("stale", 1), ("none", 3)],
-              "C15": [("parented", 6), ("conn", 4), ("selfown", 2), ("chain", 3), ("outer", 5), ("xp", 1), ("eao", 2), ("stale", 4), ("none", 3)]}[f]
+        tw = {"C06": [("conn", 5), ("selfown", 6), ("chain", 4), ("parented", 2), ("outer", 3), ("xp", 1), ("eao", 3), ("stale", 1), ("nested", 3), ("none", 3)],
+              "C12": [("parented", 9), ("conn", 2), ("selfown", 1), ("chain", 1), ("outer", 2), ("xp", 1), ("eao", 1), ("stale", 3), ("nested", 1), ("none", 3)],
+              "C04": [("conn", 10), ("selfown", 2), ("chain", 2), ("parented", 2), ("outer", 2), ("xp", 1), ("eao", 2), ("stale", 1), ("nested", 2), ("none", 3)],
+              "C15": [("parented", 6), ("conn", 4), ("selfown", 2), ("chain", 3), ("outer", 5), ("xp", 1), ("eao", 2), ("stale", 4), ("nested", 3), ("none", 3)],
+              "C07": [("nested", 10), ("selfown", 3), ("chain", 3), ("outer", 2), ("conn", 2), ("eao", 2), ("parented", 1), ("xp", 1), ("stale", 1), ("none", 3)]}[f]
         n_tpl = self.r.weighted([(1, 5), (2, 4), (3, 1)])
         for _ in range(self.r.below(4)):
             self.rand_op()
         for _ in range(n_tpl):
             k = self.r.weighted(tw)
             {"conn": self.t_conn_move, "selfown": self.t_self_own, "chain": self.t_own_chain,
-             "parented": self.t_parented_move, "xp": self.t_parent_exchange, "outer": self.t_outer_copy, "eao": self.t_empty_assign_owned, "stale": self.t_stale_parent_move, "none": self.rand_op}[k]()
+             "parented": self.t_parented_move, "xp": self.t_parent_exchange, "outer": self.t_outer_copy, "eao": self.t_empty_assign_owned, "stale": self.t_stale_parent_move, "nested": self.t_nested, "none": self.rand_op}[k]()
             for _ in range(self.r.below(5)):
                 self.rand_op()
         # closing probes: everything observable about what is left
@@ -698,6 +759,12 @@ def monitor(prog, lines):
            (mkS/setS); a copy/assignment/move whose source variable may hold a functor referring to S (a variable
            is such a holder from the `sref:…:S` spec it was given, or from a copy/assignment/move out of a holder,
            until it is given another functor, emptied by name or destroyed); S itself is created anew.
+      L1   C07/C02 "an invalidated slot holds no functor copy": if functor id f was instantiated by exactly one
+           spec, into variable S, and S was never the source of a copy/assignment/move or of a `nest:` spec (so
+           the library holds at most the one copy in S), and S was not disconnected by name (`discS S`, `disc` /
+           through a connection — `disconnect()` alone keeps the functor until the slot is reassigned), then once
+           `emptyS? S => 1` was observed `live? f` must report 0.  Dropped when S is given another functor,
+           emptied by name or destroyed.
       B2   a slot expected to be blocked, or just observed empty, logs no call and returns 0.
       P1   C15 "destroying, disconnecting … or reassigning one [copy] never affects the other": while only copies
            made after `parentS? I => 1` was observed are destroyed / emptied / disconnected / given a plain functor
@@ -721,6 +788,9 @@ def monitor(prog, lines):
     must_empty = {}      # moved-from source that must be observed empty -> (trace index of the move, parent line)
     live_seen = {}       # functor id -> count observed since the last non-neutral operation
     live_before = {}     # moved-from source -> (functor id, count observed right before the move)
+    spec_count = collections.Counter()       # functor id -> number of specs instantiated with it
+    sole = {}            # functor id -> the variable holding its only copy (L1), while certain
+    emptied = {}         # variable -> trace index of `emptyS? => 1` (while it holds a sole functor)
     calls = 0
     for idx, ln in enumerate(lines):
         if re.match(r"^\d+ call f\d+ \d+$", ln):
@@ -758,6 +828,41 @@ def monitor(prog, lines):
                     ok = True
                 if not ok:
                     del watch[inner]
+        # ---- L1 bookkeeping
+        def drop_var(v):
+            for f0 in [f0 for f0, w0 in sole.items() if w0 == v]:
+                del sole[f0]
+            emptied.pop(v, None)
+        if op in ("mkS", "setS"):
+            spec0 = args[1].split(":")
+            drop_var(args[0])
+            spec_count[spec0[1]] += 1
+            if spec_count[spec0[1]] == 1:
+                sole[spec0[1]] = args[0]
+            else:
+                sole.pop(spec0[1], None)
+            if spec0[0] == "nest":
+                drop_var(spec0[2])
+        elif op in ("cpS", "asgS", "mvS", "masgS"):
+            if args[0] != args[1]:
+                drop_var(args[0])
+                drop_var(args[1])
+        elif op in ("mkS0", "clrS", "delS", "discS"):
+            drop_var(args[0])
+        elif op == "disc":
+            if args[0] in bound:
+                drop_var(bound[args[0]])
+            else:
+                sole.clear()
+                emptied.clear()
+        elif op == "emptyS?" and res == "1" and args[0] in sole.values():
+            emptied.setdefault(args[0], idx)
+        elif op == "live?" and args[0] in sole and sole[args[0]] in emptied and res != "0":
+            v0 = sole[args[0]]
+            bad.append("L1 (C07/C02 an invalidated slot holds no functor copy): `%s` although %s, the only holder "
+                       "of functor f%s, was observed empty (`emptyS? %s => 1`, trace line %d) and was never "
+                       "disconnected by name, copied or moved" % (ln[2:], v0, args[0], v0, emptied[v0] + 1))
+            del sole[args[0]]
         # ---- M1 bookkeeping: who may refer to whom, functor ids, what may give a variable a parent
         if op in ("mkS", "setS"):
             v, spec = args[0], args[1].split(":")
